@@ -58,8 +58,10 @@ Definition case := (int * op * lit * res lit)%type.
 Definition agree (c : case) : bool :=
   let '(_, o, t, expected) := c in
   res_eqb zt_eqb (run o (dec t)) (match expected with Ok e => Ok (dec e) | Err => Err end).
-Definition ident (c : case) : nat := let '(i, _, _, _) := c in Z.to_nat (Uint63.to_Z i).
-Definition failing := failing_ids agree ident.
+(* The ids of the failing cases are returned as Z (binary), not nat: reading a unary nat of depth ~50000 back from the
+   VM overflows the stack, which would turn a run WITH disagreements into "shard not evaluated". *)
+Definition ident (c : case) : Z := let '(i, _, _, _) := c in Uint63.to_Z i.
+Definition failing (cs : list case) : list Z := map ident (filter (fun c => negb (agree c)) cs).
 
 (* the decoder on a hand-made literal: 7 entries, 10 bits each, 6 per integer *)
 Example unpack_example :
